@@ -359,7 +359,17 @@ class Fit(Contract):
         P = I.path
         P.ghost["site"] = self.prefix
         cls = adapter_class(I)
-        self.vals = {k: SObj("Val", {}, f"orig.{k}") for k in ALLOWED}
+        # the mapping-valued parameters may legitimately be EMPTY (a model without controls has process_noise == {}): their
+        # truth value is symbolic, so a guard written as `if not self.process_noise` is seen to trip on valid estimators
+        class MappingVal(SObj):
+            def __init__(self2, tag):
+                super().__init__("Val", {}, tag)
+                self2.nonempty = P.fresh_bool(f"{tag.split('.')[-1]}_nonempty")
+
+            def pvc_truth(self2, I2):
+                return self2.nonempty
+
+        self.vals = {k: (MappingVal(f"orig.{k}") if k in ("process_noise", "sensor_models", "sensor_noises", "calibration_map") else SObj("Val", {}, f"orig.{k}")) for k in ALLOWED}
         obj = SObj(cls, dict(self.vals), "adapter")
         self.log = []
         contract = self
